@@ -297,6 +297,9 @@ func c13Run(t *rapid.T) {
 			default:
 				text = strings.Replace(text, "\n", "\n\n", 1)
 			}
+			if strings.HasSuffix(text, "\\<") || strings.HasSuffix(text, "\\") {
+				text += "." // a template ending in `\<` panics in the lexer (C03's subject): not generated
+			}
 			dup := false
 			for _, q := range progs {
 				if q.text == text {
